@@ -1,7 +1,7 @@
 """C05 - cw3: passed proposals execute at most once; the lifecycle only moves forward."""
 from ..engine import show
 from ..idioms import dispatch, entry_points, update_base, loaded_from, field_of, nf, walk, response_entries
-from .cw3common import (SENDER, BLOCK, HEIGHT, CS, AUTHORIZE, IS_EXPIRED, STATUS, CONTRACTS, status, items, cs_call,
+from .cw3common import (SENDER, BLOCK, HEIGHT, CS, AUTHORIZE, IS_EXPIRED, STATUS, CONTRACTS, status, items, cs_call, close_admission,
                         exec_paths, is_expired_cond, cs_is_passed, cs_not_passed, stored_status_in, cs_term)
 
 ID = "C05"
@@ -114,7 +114,7 @@ def run(ctx):
                                       "authorize(info.sender) Ok: %s)" % (g1, g2), sample={"guards": [g1, g2]})
                     elif st == status("Rejected"):
                         n_close += 1
-                        g1 = stored_status_in(ctx, p, base, ("Pending", "Open"), before=i)
+                        g1, _how = close_admission(ctx, p, base, PROP, e.key, before=i)
                         g2 = cs_not_passed(ctx, p, base, before=i)
                         g3 = is_expired_cond(p, ("field", base, "expires"), True, before=i)
                         ctx.ob("R05.3", key + "/Rejected write", g1 and g2 and g3, sites=[e.site],
